@@ -1,0 +1,54 @@
+//! Verification hooks. Compiled only with `--cfg grmtools_verif`; never part of a normal build.
+//!
+//! They let a test harness (a) replace the wall-clock recovery budget, so that "no repairs
+//! found" is never a scheduling artefact, and (b) bound the recovery search by a deterministic
+//! number of search steps instead of the clock.
+
+use std::{cell::Cell, time::Duration};
+
+thread_local! {
+    static BUDGET_MS: Cell<Option<u64>> = const { Cell::new(None) };
+    static EXPANSION_CAP: Cell<u64> = const { Cell::new(u64::MAX) };
+    static EXPANSIONS: Cell<u64> = const { Cell::new(0) };
+    static CAP_HIT: Cell<bool> = const { Cell::new(false) };
+}
+
+/// Override the recovery time budget (milliseconds) for parses on this thread.
+pub fn set_budget_ms(ms: Option<u64>) {
+    BUDGET_MS.with(|b| b.set(ms));
+}
+
+pub fn budget() -> Option<Duration> {
+    BUDGET_MS.with(|b| b.get()).map(Duration::from_millis)
+}
+
+/// Bound the number of recovery search steps on this thread and reset the counters.
+pub fn set_expansion_cap(cap: u64) {
+    EXPANSION_CAP.with(|c| c.set(cap));
+    EXPANSIONS.with(|c| c.set(0));
+    CAP_HIT.with(|c| c.set(false));
+}
+
+pub fn expansions() -> u64 {
+    EXPANSIONS.with(|c| c.get())
+}
+
+pub fn cap_hit() -> bool {
+    CAP_HIT.with(|c| c.get())
+}
+
+/// Count one search step; returns `true` once the cap is exceeded (the caller then behaves as
+/// if the time budget had run out).
+pub fn tick() -> bool {
+    let n = EXPANSIONS.with(|c| {
+        let n = c.get() + 1;
+        c.set(n);
+        n
+    });
+    if n > EXPANSION_CAP.with(|c| c.get()) {
+        CAP_HIT.with(|c| c.set(true));
+        true
+    } else {
+        false
+    }
+}
